@@ -9,7 +9,7 @@ spec = importlib.util.spec_from_loader("check_mod", loader); chk = importlib.uti
 repo = os.environ["VERIF_REPO"]
 os.environ.setdefault("VERIF_HUNT_DEPTH", "4")
 bad = 0
-for d in sorted(glob.glob(os.path.join(V, "neutral", "*", "patch.diff"))):
+for d in sorted(glob.glob(os.path.join(V, "neutral", os.environ.get("VERIF_NEUTRAL_GLOB", "*"), "patch.diff"))):
     subprocess.run(["git", "-C", repo, "checkout", "--", "."])
     if subprocess.run(["git", "-C", repo, "apply", d]).returncode != 0:
         print(d, "PATCH-DOES-NOT-APPLY"); continue
